@@ -23,7 +23,7 @@ CHECKS = {
             "HashPool is model checked for crash freedom, error-iff-unreadable, no send on a closed channel, close only after all workers left, "
             "no leak, no deadlock, and termination under weak fairness; the real pool is run in watched child processes built with the race "
             "detector over list sizes around the worker-count boundary up to 10^4 and with missing / dangling / vanishing entries at every "
-            "position of short lists, named pipes, devices and links to directories as entries, with files churned concurrently (vanishing between open, stat and read), repeated, under 7 CPU settings, "
+            "position of short lists, named pipes, devices, links to directories and a file that opens but cannot be read (EIO) as entries, with files churned concurrently (vanishing between open, stat and read), repeated, under 7 CPU settings, "
             "with goroutine accounting; TLC evaluates Clean_C18 on every record, and validates the recorded hook traces of the real pool against "
             "the model (HashPoolTrace: one event sequence per goroutine, TLC searches an allowed interleaving).",
             TB + "the Go race detector and runtime.NumGoroutine as observation sources; a watchdog time-out is read as a hang.", "5 C18"),
@@ -41,7 +41,8 @@ for _pid, _txt in (
     ("C10", "after a kill at any hook point / inside any command / a torn cache file, never a wrong skip, only normal behaviour or an explicit cache error")):
     CHECKS[_pid] = ("SpokRun", RUNTECH,
                     "For each of several small programs (1-3 tasks mixing literal, glob, shared and task dependencies, one with a generator task that "
-                    "writes a file its consumer's glob matches) the real reachable state "
+                    "writes a file its consumer's glob matches, one with a task that rewrites a file shared by an earlier and a later task of the same run; "
+                    "each task is judged on the files as they were when its turn came and when its last command had finished) the real reachable state "
                     "space of the project directory is explored to a fixpoint, so histories of any length over the action alphabet are covered; "
                     "TLC checks the recorded graph in product with the ghost history and evaluates: " + _txt + ". The wal protocol model is "
                     "checked exhaustively against the same clauses (and the pinned variant is refuted), and the code is shown to follow the model on "
@@ -74,12 +75,13 @@ CHECKS["C17"] = ("Find", "TLC model check of the upward walk as a state machine 
                  "directory; the pinned loop, the string-comparing walk and the walk that climbs above the stop directory are refuted. In the thorough tier FindProof.tla (TLAPS, 376 obligations) proves "
                  "Correct (CHOOSE-free form, TLC checks the two forms agree), NeverAboveStop and a strictly decreasing natural-valued rank (termination) for every depth. Every chain of depth <= 2 (quick) / <= 3 "
                  "plus sampled depth 4 (thorough) x start x stop is built for real and searched in a watched child process, also with the other spellings "
-                 "(chdir for relative ones); TLC evaluates Conforms_C17 on every record.",
+                 "(chdir for relative ones), with near-miss entry names, chains through directories named spokfile, chains 40 and 130 levels deep and directories whose paths are "
+                 "string prefixes of one another (proj / project); TLC evaluates Conforms_C17 on every record.",
                  TB + "tlapm 1.6.0-pre (thorough tier); a call not returning within 5 s is a hang; nothing named spokfile above the sandbox.", "5 C17; 9")
 
 SYNTB = TB + ("white space between generated tokens is ASCII; hex-encoded strings compared byte for byte; a parse not returning in 8 s is a hang. ")
 SYNTECH = ("input spaces generated from TLA+ models (SpokSyntax generative grammar rendered by TLC with the token stream and tree each text denotes; "
-           "LexSM/ParseSM state machines) plus bounded-exhaustive class-alphabet strings, repo spokfiles and all truncations, loose layouts; real "
+           "LexSM/ParseSM state machines) plus bounded-exhaustive class-alphabet strings, repo spokfiles and all truncations, loose layouts (an eighth of them with names today's grammar rejects, for changes that widen it); real "
            "lexer/parser/printer run on every input; TLC evaluates the SyntaxJudge relation")
 for _pid, _txt in (
     ("C06", "AstEq_C06: the parse tree equals the structure the text was written from, for every structure x layout (incl. lists spread over "
@@ -113,7 +115,7 @@ for _pid, _txt in (
     ("C13", "Conforms_C13: every command's interpolated text equals the declarative substitution and `echo \"$NAME\"`, `printenv NAME` and `sh -c` (a started program's environment) print the spokfile value whatever the ambient "
             "environment and .env contain; a failing exec is an error and nothing runs"),
     ("C19", "Conforms_C19: every changed path is allowed by MayWrite(action, state) -- the cache directory, the spokfile under --fmt when it parses and loads, a new "
-            "spokfile and an appended .gitignore under --init -- for every TLC-enumerated (spokfile kind x flag set x cwd x .gitignore x .env x cache) scenario, "
+            "spokfile and an appended .gitignore under --init -- for every TLC-enumerated (spokfile kind x flag set x cwd x .gitignore x .env x cache) scenario, also with the spokfile reached through a symbolic link, "
             "the effective action being selected by the dispatch precedence of the abstract machine"),
     ("C20", "Conforms_C20: the --json document lists exactly the run's tasks in execution order with skipped flags (only a task with a file dependency, and never in a first or forced run) and per-command text/stdout/stderr/status "
             "(outputs with and without final newline, stderr only, several lines, none), --quiet "
